@@ -68,6 +68,8 @@ def classify(ev):
             return "C06/drop-columns-used-by-statements"
         if "set_transit_compartments returned" in msg and "'ALAG" in msg:
             return "C06/transits-keep-lag-symbol-without-definition"
+        if "cleanup_model returned" in msg and "symbols that nothing defines" in msg:
+            return "C06/cleanup-model-drops-used-definition"
     return None
 
 
